@@ -126,9 +126,14 @@ def gen_index(rng, table, used_names, cols=None):
     return ix
 
 
+def unnamed_sigs(table):
+    """column signatures of the table's unnamed unique constraints (UniqueConstraint without name, Column(unique=True))"""
+    return {tuple(sorted(u["cols"])) for u in table.get("uuqs", [])} | {(c["name"],) for c in table["cols"] if c.get("uflag")}
+
+
 def gen_unique(rng, table, used_names):
     names = [c["name"] for c in table["cols"]]
-    sigs = {tuple(sorted(u["cols"])) for u in table["uqs"]}
+    sigs = {tuple(sorted(u["cols"])) for u in table["uqs"]} | unnamed_sigs(table)
     for _ in range(6):
         k = rng.choice([1, 1, 2, 2, 3])
         cols = rng.sample(names, min(k, len(names)))
@@ -164,7 +169,8 @@ def all_names(schema):
     return s
 
 
-def gen_table(rng, name, earlier, used_names, odd=False, max_cols=6, funcs=False, computed=False, nullable_unset=False, main_schema=True):
+def gen_table(rng, name, earlier, used_names, odd=False, max_cols=6, funcs=False, computed=False, nullable_unset=False, main_schema=True,
+              unnamed_uq=False):
     ncols = rng.randint(1, max_cols)
     cnames = ["id"] + rng.sample(CNAMES[1:], ncols - 1) if rng.random() < 0.8 else rng.sample(CNAMES, ncols)
     cols = []
@@ -203,6 +209,14 @@ def gen_table(rng, name, earlier, used_names, odd=False, max_cols=6, funcs=False
         ix = gen_index(rng, t, used_names)
         used_names.add(ix["name"])
         t["ixs"].append(ix)
+    if unnamed_uq and rng.random() < 0.35:
+        # unnamed unique constraints as context (outside the objects a change may name): Column(unique=True) or
+        # UniqueConstraint(...) without name, next to the table's named indexes / uniques
+        plain = [c for c in cols if not c.get("computed")]
+        if rng.random() < 0.5:
+            rng.choice(plain)["uflag"] = True
+        else:
+            t["uuqs"] = [{"cols": [c["name"] for c in rng.sample(plain, min(len(plain), rng.choice([1, 2])))]}]
     if rng.random() < 0.15:
         fx = {"name": _fresh(rng, [], used_names, "ixf_%s_" % name), "col": rng.choice(cols)["name"]}
         used_names.add(fx["name"])
@@ -217,16 +231,21 @@ def gen_table(rng, name, earlier, used_names, odd=False, max_cols=6, funcs=False
         if f:
             used_names.add(f["name"])
             t["fks"].append(f)
+    for ix in t["ixs"]:
+        if ix.get("flag"):
+            for c in cols:
+                if c["name"] == ix["cols"][0]:
+                    c.pop("uflag", None)   # Column(index=True, unique=True) would be a unique index, not an unnamed constraint
     return t
 
 
-def gen_schema(rng, odd=False, max_tables=5, max_cols=6, funcs=False, computed=False, nullable_unset=False):
+def gen_schema(rng, odd=False, max_tables=5, max_cols=6, funcs=False, computed=False, nullable_unset=False, unnamed_uq=False):
     n = rng.randint(1, max_tables)
     names = rng.sample(TNAMES, n)
     used = set()
     tables = []
     for nm in names:
-        tables.append(gen_table(rng, nm, list(tables), used, odd, max_cols, funcs, computed, nullable_unset))
+        tables.append(gen_table(rng, nm, list(tables), used, odd, max_cols, funcs, computed, nullable_unset, unnamed_uq=unnamed_uq))
     return {"tables": tables}
 
 
@@ -242,6 +261,8 @@ def col_in_use(schema, tname, cname):
         if t["name"] == tname and any(c.get("computed") and c["computed"]["ref"] == cname for c in t["cols"]):
             return True
         if t["name"] == tname and any(f["col"] == cname for f in t.get("fixs", [])):
+            return True
+        if t["name"] == tname and any(cname in sig for sig in unnamed_sigs(t)):
             return True
         if t["name"] == tname:
             for o in t["ixs"] + t["uqs"] + t["fks"]:
@@ -552,7 +573,7 @@ def schema_wf(schema):
     the same column signature, constraint names distinct per table"""
     for t in schema["tables"]:
         fsigs = [(tuple(f["cols"]), f["reftable"], tuple(f["refcols"])) for f in t["fks"]]
-        usigs = [tuple(sorted(u["cols"])) for u in t["uqs"]]
+        usigs = [tuple(sorted(u["cols"])) for u in t["uqs"]] + sorted(unnamed_sigs(t))
         names = [o["name"] for k in ("ixs", "uqs", "fks") for o in t[k]]
         if len(set(fsigs)) != len(fsigs) or len(set(usigs)) != len(usigs) or len(set(names)) != len(names):
             return False
